@@ -176,6 +176,15 @@ def run(ctx):
             if x < p + 9 or rnd.random() < 0.01:
                 for pre in (0, 1, 4, 5, 6, 7, 255):
                     strings.append((bytes([pre]) + x.to_bytes(L, "big"), "string"))
+        # a complete encoding behind one more prefix byte, or followed by one more byte (bare and inside SubjectPublicKeyInfo)
+        for (x, y) in onc[:: max(1, len(onc) // (12 if quick else 60))]:
+            raw_ = x.to_bytes(L, "big") + y.to_bytes(L, "big")
+            for enc_ in (b"\x04" + raw_, bytes([6 + (y & 1)]) + raw_, bytes([2 + (y & 1)]) + x.to_bytes(L, "big"), raw_):
+                for extra in (b"\x04", b"\x00", b"\x02", b"\x06"):
+                    for s_ in (extra + enc_, enc_ + extra):
+                        strings.append((s_, "string"))
+                        strings.append((s_, "der"))
+                        strings.append((s_, "pem"))
         # every length 0..9 with structured content
         for ln in range(0, 10):
             for fill in (b"\x00", b"\x04", b"\x02", b"\xff"):
@@ -198,6 +207,27 @@ def run(ctx):
             jobs.append((cid, ch, [], ctx.seed))
         for ch in [pairs[i::3] for i in range(3)]:
             jobs.append((cid, [], ch, ctx.seed))
+    # a field of ONE byte (T23, T43): raw and compressed encodings have the same length there; the two-byte strings that
+    # start with 02 / 03 could be read either way and are not offered, every other one is a raw encoding
+    for cid in ("T23", "T43"):
+        p, a, b, n, G, h = toy.params(cid)
+        # on such a field the model itself refutes the round trip of the compressed form (it decodes as a raw pair): expected
+        rb = core.tlc(ctx.workdir, "PointModel", model_cfg(cid, p + 8, ["RoundTrip"]), tag="pm1_" + cid)
+        if "RoundTrip" not in rb.invariant_violated:
+            raise core.MachineryFailure("one-byte field: the model did not show the raw/compressed length coincidence")
+        strs = []
+        for x in (range(256) if not quick else sorted(set(list(range(p + 4)) + [255, 254, 128] + rnd.sample(range(256), 12)))):
+            if x in (2, 3):
+                continue
+            for y in range(256) if not quick else sorted(set(list(range(p + 4)) + [255, 128] + rnd.sample(range(256), 12))):
+                strs.append((bytes([x, y]), "string"))
+                for pre in (4, 6, 7) if (x < p + 2 and y < p + 2) else ():
+                    strs.append((bytes([pre, x, y]), "string"))
+                    if (x + y) % 5 == 0:
+                        strs.append((bytes([pre, x, y]), "der"))
+        strs += [(b"", "string"), (b"\x04", "string"), (b"\x05\x01\x02", "string"), (b"\x04\x01\x02\x03", "string"), (b"\x01", "string")]
+        for ch in [strs[i::4] for i in range(4)]:
+            jobs.append((cid, ch, [], ctx.seed))
     events, keys = [], []
     with cf.ProcessPoolExecutor(max_workers=core.NCPU) as ex:
         for evs, ks in ex.map(events_for, jobs):
